@@ -20,7 +20,16 @@ OUT = os.path.join(vlib.COQ, "gen", "C08Consts.v")
 
 
 def _read(rel):
-    return open(os.path.join(vlib.REPO, rel)).read()
+    """the named file first, then the other non-test files of its package: a declaration that moved to
+    another file of the package is still found (functions and constants are package-level)"""
+    d = os.path.dirname(os.path.join(vlib.REPO, rel))
+    first = os.path.join(vlib.REPO, rel)
+    parts = [open(first).read()] if os.path.exists(first) else []
+    for n in sorted(os.listdir(d)):
+        q = os.path.join(d, n)
+        if n.endswith(".go") and not n.endswith("_test.go") and q != first:
+            parts.append(open(q).read())
+    return "\n".join(parts)
 
 
 def _str_const(src, name, rel):
@@ -71,7 +80,7 @@ def extract():
     c["ignoreKey"] = _str_const(s, "ignoreKey", rel)
     c["defaultKeyName"] = _str_const(s, "defaultKeyName", rel)
     c["key_unmarshaler"] = _unmarshaler(s, "keyUnmarshaler", rel, {"defaultKeyName": c["defaultKeyName"]})
-    m = re.search(r"func readKeys\(key string, opaque bool\) \[\]string \{\s*if opaque \{\s*return \[\]string\{key\}\s*\}", s)
+    m = re.search(r"func readKeys\((\w+) string, (\w+) bool\) \[\]string \{\s*if \2 \{\s*return \[\]string\{\1\}\s*\}", s)
     c["opaque_bypasses_table"] = bool(m)
     if "func readKeys(" not in s:
         raise RuntimeError("readKeys no longer found in " + rel)
@@ -101,7 +110,7 @@ def extract():
     mm = re.search(r"func validateAndSetValue\(.*?\n}\n", s, re.S)
     if not mm:
         raise RuntimeError("validateAndSetValue no longer found in " + rel)
-    c["f32_range_on_text"] = bool(re.search(r"reflect\.Float32", mm.group(0)) and re.search(r"ParseFloat\(str, 64\)", mm.group(0)))
+    c["f32_range_on_text"] = bool(re.search(r"reflect\.Float32", mm.group(0)) and re.search(r"ParseFloat\(\w+, 64\)", mm.group(0)))
     m = re.search(r"structRequiredCache\s*=\s*make\(map\[(\w+(?:\.\w+)?)\]requiredCacheValue\)", s)
     if not m:
         raise RuntimeError("structRequiredCache no longer found in " + rel)
@@ -119,12 +128,14 @@ def extract():
     consts = {"formKey": c["formKey"], "pathKey": c["pathKey"]}
     c["form_unmarshaler"] = _unmarshaler(s, "formUnmarshaler", rel, consts)
     c["path_unmarshaler"] = _unmarshaler(s, "pathUnmarshaler", rel, consts)
-    m = re.search(r"func Parse\(r \*http\.Request, v any\) error \{(.*?)\n\}\n", s, re.S)
+    m = re.search(r"func Parse\((\w+) \*http\.Request, (\w+) (?:any|interface\{\})\) error \{(.*?)\n\}\n", s, re.S)
     if not m:
         raise RuntimeError("func Parse no longer found in " + rel)
-    c["parse_order"] = re.findall(r"\b(ParsePath|ParseForm|ParseHeaders|ParseJsonBody)\(r, v\)", m.group(1))
-    body = m.group(1)
-    c["validator_after_passes"] = body.rfind("ParseJsonBody(r, v)") < body.find("Validate(")
+    args = r"\(%s, %s\)" % (re.escape(m.group(1)), re.escape(m.group(2)))
+    body = m.group(3)
+    c["parse_order"] = re.findall(r"\b(ParsePath|ParseForm|ParseHeaders|ParseJsonBody)" + args, body)
+    last = [x.start() for x in re.finditer(r"\bParseJsonBody" + args, body)]
+    c["validator_after_passes"] = bool(last) and last[-1] < body.find("Validate(")
     rel = "rest/httpx/util.go"
     s = _read(rel)
     c["maxFormParamCount"] = _int_const(s, "maxFormParamCount", rel)
